@@ -10,6 +10,7 @@ import (
 	"net/http"
 	"regexp"
 	"strings"
+	"sync"
 
 	"github.com/rs/zerolog/log"
 )
@@ -182,11 +183,41 @@ func HaproxyEndpointFormat(
 	}
 }
 
+// registrations counts, per registered expression (manageAllRegistration for
+// the manage-all flag), how often it has been registered with the proxy. An
+// unmanage that is carried out after a delay only removes what has not been
+// registered again in the meantime.
+var (
+	registrationsMutex sync.Mutex
+	registrations      = map[string]uint64{}
+)
+
+const manageAllRegistration = ""
+
+func noteRegistered(haproxyEndpoints *HAProxyEndpointsRequest) {
+	registrationsMutex.Lock()
+	defer registrationsMutex.Unlock()
+	if haproxyEndpoints.ManageAll {
+		registrations[manageAllRegistration]++
+		return
+	}
+	for _, managedEndpoint := range haproxyEndpoints.ManagedEndpoints {
+		registrations[managedEndpoint.Endpoint]++
+	}
+}
+
+func registrationCount(registration string) uint64 {
+	registrationsMutex.Lock()
+	defer registrationsMutex.Unlock()
+	return registrations[registration]
+}
+
 func ManageHAProxyEndpoints(haproxyEndpoints *HAProxyEndpointsRequest) error {
 	err := updateHAProxyEndpoints(haproxyEndpoints)
 	if err != nil {
 		return err
 	}
+	noteRegistered(haproxyEndpoints)
 	log.Debug().Msg("✍️  Successfully updated endpoints")
 	return nil
 }
